@@ -174,21 +174,21 @@ fn o9_1_run_vertical() {
 }
 
 //@ harness: o9_1_run_slash props=C09 tier=quick obl=O9.1 timeout=1800 mem=8
-//@ desc: slash family (/): run of k cells (1..60) at any lattice origin within 64x64 cells merges with the next cell's segment into the exact hull
+//@ desc: slash family (/): run of k cells (1..30) at any lattice origin within 16x16 cells (k <= 400, 400x200 cells in the thorough tier) merges with the next cell's segment into the exact hull
 //@ encodes: Line::merge, Line::can_merge, Line::is_touching, util::is_collinear, parry Segment::contains_point
 #[kani::proof]
 #[kani::stub(std::io::_print, crate::kstub::noop_print)]
 fn o9_1_run_slash() {
-    long_run(2, 60, 64, 64);
+    long_run(2, 30, 16, 16);
 }
 
 //@ harness: o9_1_run_backslash props=C09 tier=quick obl=O9.1 timeout=1800 mem=8
-//@ desc: backslash family (\): run of k cells (1..60) at any lattice origin within 64x64 cells merges with the next cell's segment into the exact hull
+//@ desc: backslash family (\): run of k cells (1..30) at any lattice origin within 16x16 cells (k <= 400, 400x200 cells in the thorough tier) merges with the next cell's segment into the exact hull
 //@ encodes: Line::merge, Line::can_merge, Line::is_touching, util::is_collinear, parry Segment::contains_point
 #[kani::proof]
 #[kani::stub(std::io::_print, crate::kstub::noop_print)]
 fn o9_1_run_backslash() {
-    long_run(3, 60, 64, 64);
+    long_run(3, 30, 16, 16);
 }
 
 //@ harness: o9_1_run_horizontal_400 props=C09,C03 tier=thorough obl=O9.1 timeout=3000 mem=14
@@ -266,7 +266,16 @@ fn exactness(max_len: i32, max_pos: i32, max_off_x: i32, max_off_y: i32) {
     }
 }
 
-//@ harness: o9_2_can_merge_exact props=C09,C03,C06 tier=quick obl=O9.2 timeout=2400 mem=14
+//@ harness: o9_2_can_merge_exact_small props=C09,C03,C06 tier=quick obl=O9.2 timeout=800 mem=10
+//@ desc: two lattice segments, each of any of the 4 direction classes, start anywhere in a 4x4 quarter-unit window, length 1..4 quarter-unit steps, window at any cell offset <= 4x4: can_merge <=> (exact cross products zero) and (segments share a point)
+//@ encodes: Line::can_merge, Line::is_touching, Line::touching_line, util::is_collinear, parry Segment::contains_point
+#[kani::proof]
+#[kani::stub(std::io::_print, crate::kstub::noop_print)]
+fn o9_2_can_merge_exact_small() {
+    exactness(4, 4, 4, 4);
+}
+
+//@ harness: o9_2_can_merge_exact props=C09,C03,C06 tier=thorough obl=O9.2 timeout=2400 mem=14
 //@ desc: two lattice segments, each of any of the 4 direction classes, start anywhere in an 8x8 quarter-unit window, length 1..8 quarter-unit steps, window at any cell offset <= 16x16: can_merge <=> (exact cross products zero) and (segments share a point)
 //@ encodes: Line::can_merge, Line::is_touching, Line::touching_line, util::is_collinear, parry Segment::contains_point, parry Triangle::area
 #[kani::proof]
@@ -284,20 +293,33 @@ fn o9_2_can_merge_exact_48() {
     exactness(48, 48, 400, 200);
 }
 
-//@ harness: o3_3_merge_pointset props=C03,C09 tier=quick obl=O3.3 timeout=1800 mem=8
+//@ harness: o3_3_merge_pointset props=C03,C09 tier=thorough obl=O3.3 timeout=1800 mem=8
 //@ desc: two lattice lines of the same axis class (horizontal or vertical), interval ends in 0..16 quarter units + cell offset <= 16: Line::merge = Some(l) => l covers exactly the union of both intervals (which is itself an interval) and is dashed iff one part is; None => the intervals do not touch or lie on different rows/columns
 //@ encodes: Line::merge, Line::can_merge
 #[kani::proof]
 #[kani::stub(std::io::_print, crate::kstub::noop_print)]
 fn o3_3_merge_pointset() {
+    merge_pointset(16, 16);
+}
+
+//@ harness: o3_3_merge_pointset_small props=C03,C09 tier=quick obl=O3.3 timeout=800 mem=10
+//@ desc: as o3_3_merge_pointset with interval ends in 0..8 quarter units + cell offset <= 4
+//@ encodes: Line::merge, Line::can_merge
+#[kani::proof]
+#[kani::stub(std::io::_print, crate::kstub::noop_print)]
+fn o3_3_merge_pointset_small() {
+    merge_pointset(8, 4);
+}
+
+fn merge_pointset(m: i32, moff: i32) {
     let vertical: bool = kani::any();
-    let off = any_in(0, 16) * 8;
-    let r1 = off + any_in(0, 16);
-    let r2 = off + any_in(0, 16);
-    let a1 = off + any_in(0, 16);
-    let b1 = a1 + any_in(1, 16);
-    let a2 = off + any_in(0, 16);
-    let b2 = a2 + any_in(1, 16);
+    let off = any_in(0, moff) * 8;
+    let r1 = off + any_in(0, m);
+    let r2 = off + any_in(0, m);
+    let a1 = off + any_in(0, m);
+    let b1 = a1 + any_in(1, m);
+    let a2 = off + any_in(0, m);
+    let b2 = a2 + any_in(1, m);
     let br1: bool = kani::any();
     let br2: bool = kani::any();
     let (l1, l2) = if vertical {
@@ -348,12 +370,12 @@ fn two_lines(max_len: i32, max_pos: i32) -> (Line, Line) {
 }
 
 //@ harness: o6_1_touching_exact props=C06,C05,C10 tier=quick obl=O6.1 timeout=2400 mem=14
-//@ desc: two axis-parallel lattice lines (horizontal or vertical each; diagonals in the thorough tier; 8x8 quarter-unit window, length <= 8) placed at any cell offset (k <= 16, n <= 16): is_touching at that position equals the exact integer predicate "an endpoint of one lies on the other" - which does not mention the offset, so touching (the basis of contact grouping and rectangle endorsement) is position independent
+//@ desc: two axis-parallel lattice lines (horizontal or vertical each; diagonals in the thorough tier; 8x8 quarter-unit window, length <= 8) placed at any cell offset (k <= 8, n <= 8): is_touching at that position equals the exact integer predicate "an endpoint of one lies on the other" - which does not mention the offset, so touching (the basis of contact grouping and rectangle endorsement) is position independent
 //@ encodes: Line::absolute_position, Cell::absolute_position, Line::is_touching, Line::touching_line, parry Segment::contains_point
 #[kani::proof]
 #[kani::stub(std::io::_print, crate::kstub::noop_print)]
 fn o6_1_touching_exact() {
-    touching_exact(16, 16, 2);
+    touching_exact(8, 8, 2);
 }
 
 //@ harness: o6_1_touching_exact_400 props=C06,C05,C10 tier=thorough obl=O6.1 timeout=3400 mem=16
